@@ -14,7 +14,7 @@ namespace YatimlModel
 open NodeOps
 
 inductive Fatal where
-  | seasoning          -- SeasoningError from `get_attribute` on a repeated key
+  | seasoning (marks : List Mark)   -- SeasoningError from `get_attribute` on a repeated key, citing the mapping
   | hook               -- a custom recogniser raised something other than RecognitionError
   | unregistered       -- "Could not recognize for type X, is it registered?"
   | dictKey            -- RuntimeError: dict with non-string keys in the type
@@ -220,6 +220,22 @@ def runRecProg (ext : Ext) (rec : Node → Ty → RecRes) (n : Node) : List RecO
 
 /-! ### one user class -/
 
+/-- the recogniser says in which mapping a key is repeated (the innermost one: only the
+`get_attribute` call is wrapped, not the recursive recognition) -/
+def Fatal.atMapping (m : Mark) : Fatal → Fatal
+  | .seasoning [] => .seasoning [m]
+  | e => e
+
+theorem Fatal.atMapping_hook (m : Mark) (e : Fatal) (h : e.atMapping m = .hook) : e = .hook := by
+  unfold Fatal.atMapping at h; split at h <;> first | (cases h; done) | exact h
+theorem Fatal.atMapping_fuel (m : Mark) (e : Fatal) (h : e.atMapping m = .fuel) : e = .fuel := by
+  unfold Fatal.atMapping at h; split at h <;> first | (cases h; done) | exact h
+theorem Fatal.atMapping_unregistered (m : Mark) (e : Fatal) (h : e.atMapping m = .unregistered) :
+    e = .unregistered := by
+  unfold Fatal.atMapping at h; split at h <;> first | (cases h; done) | exact h
+theorem Fatal.atMapping_dictKey (m : Mark) (e : Fatal) (h : e.atMapping m = .dictKey) : e = .dictKey := by
+  unfold Fatal.atMapping at h; split at h <;> first | (cases h; done) | exact h
+
 /-- first key node whose value equals `name` (for the position of an attribute error) -/
 def keyNodeOf (ps : List (Node × Node)) (name : String) : Option Node :=
   (ps.find? (fun p => p.1.keyIs name)).map (·.1)
@@ -235,7 +251,7 @@ def tryAttrName (rec : Node → Ty → RecRes) (ps : List (Node × Node)) (ty : 
         (match rec v ty with
          | .error e => .error e
          | .ok (ts, leaves) => if ts.length == 0 then .ok (some leaves) else .ok none)
-      | _ => .error .seasoning)
+      | _ => .error (.seasoning []))
   else none
 
 /-- recognition of one attribute of an auto-recognised class: exact name first, then dashed -/
@@ -278,7 +294,7 @@ def recUserClass (env : Env) (rec : Node → Ty → RecRes) (n : Node) (d : Clas
       match n with
       | .map _ ps _ =>
         (match recAttrs rec n ps.toList d.params with
-         | .error e => .error e
+         | .error e => .error (e.atMapping n.mark)
          | .ok none => recOk (.cls d.name)
          | .ok (some leaves) => .ok ([], leaves))
       | _ => recFail [n.mark] ((d.params.filter (·.required)).map (·.name))
